@@ -92,7 +92,9 @@ let reason_str (site : string) (r : reason) : string =
               else if site = "uuid" then "piff-senc-sample-count-zero-data-dropped"
               else if site = "sgpd" then "reserved-bits-rewritten"   (* the reserved byte of a seig entry *)
               else if site = "esds" then "esds-noncanonical-size-field-or-unknown-data"
-              else if site = "wvtt" then "wvtt-prefix-cut-short" else "trun-data-offset-zero"
+              else if site = "wvtt" then "wvtt-prefix-cut-short"
+              else if site = "dac3" then "dac3-payload-not-zeroes-plus-3-bytes"
+              else if site = "dec3" then "dec3-reserved-bits-rewritten" else "trun-data-offset-zero"
   | RMoov -> "trak-reordered"
   | RMoof -> "moof-trun-data-offset-zero"
   | RRsv (dc, i) -> chunk_name site dc (int_of_nat i)
